@@ -593,6 +593,23 @@ static void run_rel(vh::Trace& tr, vh::Rng& rng, int idx, bool big) {
       finish(tr, j);
     }
   }
+  // ---- kappa: the same calls with the kappa image doubled (or, if none is set, with a kappa image of ones)
+  {
+    Cfg c2 = c;
+    const bool had = !c.kappa.empty();
+    if (had) for (auto& k : c2.kappa) k *= 2.F;
+    else c2.kappa.assign(n, 1.F);
+    Box b2 = make_prior(c2, target);
+    if (!g_rejected) {
+      double v2 = 0;
+      vh::threw([&] { v2 = b2.p->compute_value(*x); });
+      std::vector<float> g2 = gradient(*b2.p, *x);
+      const int k = pick_k(std::max(std::max(std::fabs(v0), std::fabs(v2)), std::max(maxabs(g0), maxabs(g2))), 26);
+      vh::Json j(had ? "KScale" : "KOnes");
+      j.num("k", k).num("va", fxq(v0, k)).num("vb", fxq(v2, k)).arr("ga", fxv(g0, k)).arr("gb", fxv(g2, k));
+      finish(tr, j);
+    }
+  }
   // ---- gradient of uniform images
   for (int u = 0; u < 2; ++u) {
     const float cv = u == 0 ? 0.F : rng.range(1, 31) * 0.125F;
@@ -663,7 +680,13 @@ static void run_rel(vh::Trace& tr, vh::Rng& rng, int idx, bool big) {
     if (n <= 40) for (int i = 0; i < n; ++i) vox.push_back(i);
     else {
       vox = { 0, n - 1, c.n[2] - 1, n - c.n[2], n / 2, n / 2 + 1 };
-      for (int t = 0; t < 10; ++t) vox.push_back(rng.range(0, n - 1));
+      for (int t = 0; t < 8; ++t) vox.push_back(rng.range(0, n - 1));
+      // and voxels away from every face of the image (where they exist)
+      for (int t = 0; t < 8; ++t) {
+        int q[3];
+        for (int a = 0; a < 3; ++a) q[a] = c.n[a] >= 3 ? rng.range(1, c.n[a] - 2) : rng.range(0, c.n[a] - 1);
+        vox.push_back((q[0] * c.n[1] + q[1]) * c.n[2] + q[2]);
+      }
     }
     for (int i : vox)
       for (int hk : { 4, 8 }) {
